@@ -398,6 +398,18 @@ func run(e *core.Env) {
 			time.Sleep(time.Duration(tp.Intn(100000)) * time.Millisecond)
 			e.Fault("clock_advance")
 		}
+		// Now and then the receiver starts a new key exchange on this very session (a link
+		// setup with the same router begins: the handshake's client role calls exactly this)
+		// or drops the exchange again. Until an exchange completes nothing about what was
+		// accepted before may be forgotten.
+		if tp.Chance(1, 50) {
+			if tp.Chance(2, 3) {
+				_, _, _ = rSess.Encryption().InitKeyClientStart()
+			} else {
+				rSess.Encryption().InitCleanup()
+			}
+			e.Fault("key_exchange_started_on_live_session")
+		}
 		mustAcc, mustRej := cu.c.mo.expect(fr.seq, cu.c.signed)
 		var derr error
 		e.Guard("panic", func() { derr = cu.c.deliver(fr.data) })
